@@ -582,11 +582,18 @@ def render(rng, nl, layout="free", comments=0.0, shuffle=True, split_decl=None):
         parts.append(join(toks))
     parts.append("endmodule")
     if layout == "writer":
-        return "\n".join(("  " + p if 0 < i < len(parts) - 1 else p) for i, p in enumerate(parts)) + "\n"
-    text = ""
-    for p in parts:
-        text += p + rng.choice(["\n", " ", "\n\n", "\n  ", "\t"]) + comment()
-    return text + "\n"
+        text = "\n".join(("  " + p if 0 < i < len(parts) - 1 else p) for i, p in enumerate(parts)) + "\n"
+    else:
+        text = ""
+        for p in parts:
+            text += p + rng.choice(["\n", " ", "\n\n", "\n  ", "\t"]) + comment()
+        text += "\n"
+    r = rng.random()
+    if r < 0.05:
+        text = text.replace("\n", "\r\n")  # written on another platform
+    elif r < 0.1:
+        text = text.rstrip("\n")  # no newline at the end of the file
+    return text
 
 
 # ---------------------------------------------------------------------------
